@@ -4,4 +4,5 @@ import (
 	_ "verif/lab/clntlab"
 	_ "verif/lab/codec"
 	_ "verif/lab/srvlab"
+	_ "verif/lab/ufslab"
 )
